@@ -566,6 +566,32 @@ func fullOf(p *api.VersionedSignedProposal) any {
 	return nil
 }
 
+// sigAndSlot extracts the block signature and the slot of a submitted container.
+func sigAndSlot(p *api.VersionedSignedProposal) (sig phase0.BLSSignature, slot uint64, ok bool) {
+	if p == nil {
+		return sig, 0, false
+	}
+	switch {
+	case p.Phase0 != nil && p.Phase0.Message != nil:
+		return p.Phase0.Signature, uint64(p.Phase0.Message.Slot), true
+	case p.Altair != nil && p.Altair.Message != nil:
+		return p.Altair.Signature, uint64(p.Altair.Message.Slot), true
+	case p.Bellatrix != nil && p.Bellatrix.Message != nil:
+		return p.Bellatrix.Signature, uint64(p.Bellatrix.Message.Slot), true
+	case p.Capella != nil && p.Capella.Message != nil:
+		return p.Capella.Signature, uint64(p.Capella.Message.Slot), true
+	case p.Deneb != nil && p.Deneb.SignedBlock != nil && p.Deneb.SignedBlock.Message != nil:
+		return p.Deneb.SignedBlock.Signature, uint64(p.Deneb.SignedBlock.Message.Slot), true
+	case p.BellatrixBlinded != nil && p.BellatrixBlinded.Message != nil:
+		return p.BellatrixBlinded.Signature, uint64(p.BellatrixBlinded.Message.Slot), true
+	case p.CapellaBlinded != nil && p.CapellaBlinded.Message != nil:
+		return p.CapellaBlinded.Signature, uint64(p.CapellaBlinded.Message.Slot), true
+	case p.DenebBlinded != nil && p.DenebBlinded.Message != nil:
+		return p.DenebBlinded.Signature, uint64(p.DenebBlinded.Message.Slot), true
+	}
+	return sig, 0, false
+}
+
 // unblind reconstructs the full signed block from a relay request and the
 // relay's payload, exactly as the real builder client does (all block fields are
 // taken over from the request, the payload comes from the relay).
